@@ -101,6 +101,16 @@ def h_vector(B, struct, cplx):
         ops["norm_inf"] = (lambda a, b, s: J.norm(V(a), np.inf), [_smax([_absv(u) for u in fa])])
         ops["where(a>b,a,b)"] = (lambda a, b, s: J.where(V(a) > V(b), V(a), V(b)).tree,
                                  [(_smax([u, v])) for u, v in zip(fa, fb)])
+        def ind(c):       # indicator of a symbolic / concrete truth value
+            return sc.ite(c, 1, 0) if isinstance(c, sc.SB) else (1 if c else 0)
+        one, zero = (lambda a: J.ones_like(V(a))), (lambda a: J.zeros_like(V(a)))
+        # every comparison operator, ties included (the solver is free to make entries equal)
+        ops["a>=b"] = (lambda a, b, s: J.where(V(a) >= V(b), one(a), zero(a)).tree, [ind(u >= v) for u, v in zip(fa, fb)])
+        ops["a<=b"] = (lambda a, b, s: J.where(V(a) <= V(b), one(a), zero(a)).tree, [ind(u <= v) for u, v in zip(fa, fb)])
+        ops["a<b"] = (lambda a, b, s: J.where(V(a) < V(b), one(a), zero(a)).tree, [ind(u < v) for u, v in zip(fa, fb)])
+        ops["a>=s"] = (lambda a, b, s: J.where(V(a) >= s, one(a), zero(a)).tree, [ind(u >= s) for u in fa])
+        ops["s<=a (reflected)"] = (lambda a, b, s: J.where(s <= V(a), one(a), zero(a)).tree, [ind(u >= s) for u in fa])
+        ops["s>=a (reflected)"] = (lambda a, b, s: J.where(s >= V(a), one(a), zero(a)).tree, [ind(u <= s) for u in fa])
         ops["where(a>0,a,s)"] = (lambda a, b, s: J.where(V(a) > 0., V(a), s).tree,
                                  [sc.ite(u > 0, u, s) if isinstance(u, sc.SR) else (u if u > 0 else s) for u in fa])
     B.is_true("size == number of elements of the flat array", J.size(V(jax.tree_util.tree_map(lambda l: np.zeros(np.shape(l)), a))) == len(fa))
